@@ -207,7 +207,8 @@ type scen struct {
 	monState   int
 	monRelease chan struct{}
 	cbs        []cbObs
-	sigPending bool
+	sigSent    int // close notifications the transport must have queued for the runner
+	sigRecv    int // notifications the runner has received (OnClosedCleanly/Uncleanly entered)
 	// Closed() channels per generation
 	closedCh   []<-chan error
 	closedDone []bool
@@ -384,7 +385,7 @@ func (m *recMon) park(cb cbObs) {
 	sc.mu.Lock()
 	sc.cbs = append(sc.cbs, cb)
 	if cb.Kind == 1 || cb.Kind == 2 {
-		sc.sigPending = false
+		sc.sigRecv++
 	}
 	switch {
 	case cb.Kind == 1:
@@ -408,7 +409,7 @@ func (m *recMon) park(cb cbObs) {
 
 func (m *recMon) OnClosedCleanly() {
 	m.base.OnClosedCleanly()
-	m.park(cbObs{Kind: 1})
+	m.park(cbObs{Kind: 1, PassOK: true})
 }
 
 func (m *recMon) OnClosedUncleanly(cause error) (bool, time.Duration) {
@@ -479,10 +480,10 @@ func (sc *scen) settle(pubs *[][]int) string {
 		}
 		closedNow := sc.pollClosed(pubs)
 		sc.mu.Lock()
-		if closedNow && sc.monState != monNone {
-			sc.sigPending = true // (a second pending signal is dropped by the transport: capacity 1)
+		if closedNow && sc.monState != monNone && sc.sigSent-sc.sigRecv < 1 {
+			sc.sigSent++ // (a second pending signal is dropped by the transport: capacity 1)
 		}
-		expect := sc.monState == monIdle && sc.sigPending
+		expect := sc.monState == monIdle && sc.sigSent > sc.sigRecv
 		sc.mu.Unlock()
 		if !expect {
 			return ""
@@ -493,7 +494,7 @@ func (sc *scen) settle(pubs *[][]int) string {
 		sc.mu.Unlock()
 		if !sc.waitFor(func() bool { return len(sc.cbs) > n0 || sc.monState != monIdle }, callTimeout) {
 			sc.mu.Lock()
-			sc.sigPending = false
+			sc.sigRecv = sc.sigSent
 			sc.mu.Unlock()
 			return "monitor-missed: the monitor runner was idle, the transport closed, and no callback came within 1s"
 		}
@@ -559,6 +560,9 @@ func (sc *scen) snapshot() (*snapObs, string) {
 	})
 	if p != "" {
 		s.IsOpenInt, s.IsOpenPub, s.Tokens = -1, -1, -1
+		sc.mu.Lock()
+		s.Gen = sc.accepted
+		sc.mu.Unlock()
 		return s, "state accessor " + p + " (mutex held)"
 	}
 	s.IsOpenInt, s.Tokens = b2i(v.o), v.t
@@ -648,10 +652,14 @@ func runHistory(q req) resp {
 	}
 
 	do := func(e evReq, auto bool) bool {
-		s := stepObs{Ev: e, Auto: auto, Enabled: true}
 		sc.mu.Lock()
 		sc.lastOpen, sc.lastClose = 0, 0
+		if (e.Op == "feed" || e.Op == "readerr" || e.Op == "loop") && e.G <= 0 {
+			// g = 0: the latest read loop, -1: the one before, ...
+			e.G = len(sc.loops) + e.G
+		}
 		sc.mu.Unlock()
+		s := stepObs{Ev: e, Auto: auto, Enabled: true}
 		switch e.Op {
 		case "failopens":
 			sc.mu.Lock()
